@@ -1124,6 +1124,13 @@ impl<'a> VisitMut for Rw<'a> {
         // R16: `for x in SET` (by value, Copy elements) -> `for __r in SET.iter() { let x = *__r; .. }`
         if let Expr::Path(p) = &*f.expr {
             if let Some(id) = p.path.get_ident() {
+                // `setiter=vec:NAME`: consuming iteration over a set of non-Copy elements -> over `vx_set_into_vec(NAME)` (the unit declares it:
+                // external_body, every element exactly once in an unspecified order, or no contract at all)
+                if self.setiter.iter().any(|n| n.strip_prefix("vec:").map(|x| id == x).unwrap_or(false)) {
+                    let ne: Expr = parse_quote!(vx_set_into_vec(#id));
+                    f.expr = Box::new(ne);
+                    self.bump("R16.set_by_value_vec");
+                } else
                 if self.setiter.iter().any(|n| id == n) {
                     let r = self.fresh("r");
                     let pat = &f.pat;
@@ -2244,6 +2251,27 @@ fn do_fn(items: &[Item], req: &ItemReq, feats: &[String]) -> std::result::Result
         block.stmts.push(endm);
     }
     block.stmts.insert(0, mac_stmt("__vx_body", None));
+
+    // R26: `mut self` (by-value, mutable binding: builder methods) -> `self` + `let mut __vx_self = self;`, every `self` in the body renamed
+    // (Verus rejects `mut self`)
+    let mut_self_by_value = matches!(sig.inputs.first(), Some(FnArg::Receiver(r)) if r.reference.is_none() && r.mutability.is_some());
+    if mut_self_by_value {
+        if let Some(FnArg::Receiver(r)) = sig.inputs.first_mut() {
+            r.mutability = None;
+        }
+        struct SelfRename;
+        impl VisitMut for SelfRename {
+            fn visit_ident_mut(&mut self, i: &mut Ident) {
+                if i == "self" {
+                    *i = Ident::new("__vx_self", i.span());
+                }
+            }
+            fn visit_macro_mut(&mut self, _m: &mut Macro) {}
+        }
+        SelfRename.visit_block_mut(&mut block);
+        block.stmts.insert(1, parse_quote!(let mut __vx_self = self;));
+        *rw.counts.entry("R26.mut_self".to_string()).or_insert(0) += 1;
+    }
 
     for a in sig.inputs.iter_mut() {
         if let FnArg::Typed(pt) = a {
